@@ -326,6 +326,7 @@ def run(ctx):
     ctx.check(ok, 'R12.4', 'bisection', step.where(rec[0][0]) if rec else step.where(0), step.path, 'bisection must be depth-bounded and chained: ' + msg, detail=msg)
 
     _poses(ctx, prog)
+    _flags(ctx, prog, probe, step)
     _stop_flag(ctx, prog, plan, probe, plan_cl)
 
 
@@ -448,6 +449,76 @@ def _poses(ctx, prog):
         ok = len(lerp) == 1 and len(slerp) == 1 and util.is_param(b.op_term(lerp[0][1]['args'][2], (lerp[0][0], None)), 3) and \
             util.is_param(b.op_term(slerp[0][1]['args'][2], (slerp[0][0], None)), 3)
         ctx.check(ok, 'R12.5', 'interpolate-fraction', b.where(0), b.path, 'translation and rotation must be interpolated with the same fraction')
+
+
+def _flag_names(t):
+    """set of PathFlags constant names in a flag expression, with the operator skeleton"""
+    t = strip(t)
+    if isinstance(t, tuple) and t[0] == 'const' and len(t) > 3 and t[3]:
+        return t[3].split('::')[-1]
+    if isinstance(t, tuple) and t[0] == 'call':
+        n = cname(t[1]).split('::')[-1]
+        if n in ('bitor', 'bitand'):
+            a, b = _flag_names(t[2]), _flag_names(t[3])
+            return (n,) + tuple(sorted([a, b], key=str))
+        if n == 'not':
+            return ('not', _flag_names(t[2]))
+        if n in ('union', 'intersection', 'difference', 'complement'):
+            return (n,) + tuple(_flag_names(x) for x in t[2:])
+    if isinstance(t, tuple) and t[0] == 'fld' and t[2] == 'flags':
+        return 'TARGET.flags'
+    return '?' + show(t, maxdepth=2)
+
+
+def _flags(ctx, prog, probe, step):
+    """R12.5b: waypoint flags in the strategy probe"""
+    pushes = [(bi, t) for bi, t in probe.calls() if cname(callee_name(t)) == 'Vec::push']
+    seen = {}
+    for bi, t in pushes:
+        item = strip(probe.op_term(t['args'][1], (bi, None)))
+        while isinstance(item, tuple) and item[0] == 'call' and cname(item[1]) == 'Clone::clone':
+            item = strip(item[2])
+        if not (isinstance(item, tuple) and item[0] == 'agg' and len(item) == 4):
+            continue
+        joints, flags = strip(item[2]), item[3]
+        cls = classify_source(prog, probe, joints)
+        fl = strip(flags)
+        if isinstance(fl, tuple) and fl[0] == 'var':
+            # flags chosen per waypoint: the last element of a Cartesian extension carries the target's flags,
+            # earlier ones (bisection waypoints) are LIN_INTERP versions without TRACE / PARK
+            l = fl[2]
+            kinds = {}
+            for d in probe.defs().get(l, []):
+                val = _flag_names(probe._def_term(d))
+                gs = [(strip(g), opw.truth(k)) for g, k, sw in probe.guard_terms(d[1])]
+                lt = [(g, v) for g, v in gs if isinstance(g, tuple) and g[0] == 'bin' and g[1] in ('Lt', 'Le', 'Ge', 'Gt', 'Eq', 'Ne')]
+                last = None
+                for g, v in lt:
+                    bd = util.as_bound(g, v)
+                    s_ = show(g, maxdepth=6)
+                    if bd is not None and bd[0] == 'lt' and 'len' in show(bd[2], maxdepth=5) and '- 1' in show(bd[2], maxdepth=5):
+                        last = False          # p < len - 1 holds: not the last element
+                    elif bd is not None and bd[0] == 'le' and 'len' in show(bd[1], maxdepth=5) and '- 1' in show(bd[1], maxdepth=5):
+                        last = True           # len - 1 <= p : the last element
+                kinds[last] = val
+            want_mid = ('bitand', ('bitor', 'LIN_INTERP', 'TARGET.flags'), ('not', ('bitor', 'PARK', 'TRACE')))
+            ok = kinds.get(True) == 'TARGET.flags' and kinds.get(False) == want_mid
+            ctx.check(ok, 'R12.5', 'flags/cartesian-extension', probe.where(bi), probe.path,
+                      'the final waypoint of a Cartesian step must carry the target pose\'s flags, intermediate ones (flags | LIN_INTERP) & !(TRACE | PARK)',
+                      found=str(kinds), expected=str({True: 'TARGET.flags', False: want_mid}), detail=str(kinds))
+            seen['ext'] = True
+        else:
+            v = _flag_names(flags)
+            if cls == 'trusted' and 'plan_rrt' in show(joints, maxdepth=8) or (isinstance(v, tuple) and v[0] == 'bitand' and 'TARGET.flags' in v):
+                ok = v == ('bitand', ('not', 'LIN_INTERP'), 'TARGET.flags')
+                ctx.check(ok, 'R12.5', 'flags/rrt-gap', probe.where(bi), probe.path, 'waypoints of an RRT gap closure carry the target flags without LIN_INTERP', found=str(v))
+                seen['rrt'] = True
+            elif v in ('LAND', 'ONBOARDING'):
+                # LAND for the strategy point (a parameter), ONBOARDING for the relocation waypoints (plan_rrt result)
+                okv = (v == 'LAND' and cls.startswith('param:')) or (v == 'ONBOARDING' and cls == 'trusted')
+                ctx.check(okv, 'R12.5', 'flags/' + v.lower(), probe.where(bi), probe.path, '%s must flag %s' % (v, 'the strategy point' if v == 'LAND' else 'the relocation waypoints'), found='%s on %s' % (v, cls))
+                seen[v] = True
+    ctx.check(seen.get('ext') and seen.get('LAND'), 'R12.5', 'flags/sites', probe.where(0), probe.path, 'flag assignment sites not found (Cartesian extension, LAND)', found=str(sorted(seen)))
 
 
 def _stop_flag(ctx, prog, plan, probe, plan_cl):
